@@ -1122,3 +1122,448 @@ theorem getNextWaiting_refines (q : MsgQueue) (up low : List MEntry) (h : MqInv 
       exact ⟨trivial, setState_inv q up low h x.1 2⟩
 
 end Iec.Queues
+
+namespace Iec.Queues
+
+/-! ### removing the oldest entry, confirming, re-arming -/
+
+/-- `removeFirstEntry` drops the head of the list and nothing else -/
+theorem removeFirst_refines (q : MsgQueue) (u0 : MEntry) (rest low : List MEntry) (h : MqInv q (u0 :: rest) low) :
+    (rest ≠ [] → MqInv q.removeFirst rest low) ∧ (rest = [] → MqInv q.removeFirst low []) := by
+  obtain ⟨hfirst, hchain, hend, hlib⟩ := h.upper u0 rest rfl
+  have hcount : q.count = rest.length + 1 + low.length := by simpa using h.count
+  have hg0 : q.get u0.1 = some u0.2 := h.data u0 (by simp)
+  obtain ⟨_, hrestc⟩ := hchain
+  constructor
+  · intro hr
+    obtain ⟨r0, rr, hrr⟩ := List.exists_cons_of_ne_nil hr
+    have hlo := mChain_lastOff _ rest hrestc hr
+    have hml : mLast (u0 :: rest) = mLast rest := mLast_cons u0 rest hr
+    have hnlib : ¬ (some u0.1 = q.lib) := by rw [hlib, hml]; simp only [esz, HDR] at hlo; simp; omega
+    have hr0 : r0.1 = u0.1 + esz u0 := by have := hrestc; rw [hrr] at this; exact this.1
+    have heq : q.removeFirst = { q with first := some (u0.1 + HDR + q.esize u0.1), count := q.count - 1 } := by
+      simp [MsgQueue.removeFirst, hfirst, hnlib]
+    rw [heq, esize_of q u0 hg0]
+    exact { count := by show q.count - 1 = _; omega
+            data := by intro x hx; exact h.data x (by simp at hx ⊢; rcases hx with hx | hx; exact Or.inr (Or.inl hx); exact Or.inr (Or.inr hx))
+            lowup := by intro h'; exact absurd h' hr
+            upper := by
+              intro a b hab
+              have ha : a = r0 := by rw [hrr] at hab; cases hab; rfl
+              subst ha
+              refine ⟨by show some _ = some a.1; rw [hr0]; simp [esz, Nat.add_assoc], by rw [hr0]; exact hrestc, ?_, by show q.lib = _; rw [hlib, hml]⟩
+              simp only [mEnd] at hend; rw [hr0]; exact hend
+            lastU := by intro _ hl; show q.last = _; rw [h.lastU (by simp) hl, hml]
+            lower := by
+              intro l0 lrest hl
+              obtain ⟨hlc, hlast, hle⟩ := h.lower l0 lrest hl
+              refine ⟨hlc, hlast, ?_⟩
+              intro a b hab
+              have ha : a = r0 := by rw [hrr] at hab; cases hab; rfl
+              subst ha
+              have := hle u0 rest rfl
+              simp only [esz, HDR] at hr0; omega }
+  · intro hr
+    subst hr
+    have hlibeq : q.lib = some u0.1 := by rw [hlib, mLast_single]
+    cases low with
+    | nil =>
+      have hlast := h.lastU (by simp) rfl
+      have hfl : q.last = some u0.1 := by rw [hlast, mLast_single]
+      have heq : q.removeFirst = { q with first := none, last := none, lib := none, count := q.count - 1 } := by
+        simp [MsgQueue.removeFirst, hfirst, hlibeq, hfl]
+      rw [heq]
+      exact { count := by show q.count - 1 = _; simp at hcount ⊢; omega
+              data := by simp
+              lowup := fun _ => rfl
+              upper := by intro a b h'; cases h'
+              lastU := by simp
+              lower := by intro a b h'; cases h' }
+    | cons l0 lrest =>
+      obtain ⟨hlc, hlast, hle⟩ := h.lower l0 lrest rfl
+      have hleU := hle u0 [] rfl
+      have hlo := mChain_lastOff 0 (l0 :: lrest) hlc (by simp)
+      have hnl : ¬ (u0.1 = mLast (l0 :: lrest)) := by omega
+      have heq : q.removeFirst = { q with first := some 0, lib := q.last, count := q.count - 1 } := by
+        simp [MsgQueue.removeFirst, hfirst, hlibeq, hlast, hnl]
+      rw [heq]
+      have hl0 : l0.1 = 0 := hlc.1
+      have hb := mChain_bounds u0.1 [u0] ⟨rfl, hrestc⟩
+      exact { count := by show q.count - 1 = _; simp at hcount ⊢; omega
+              data := by intro x hx; exact h.data x (by simp at hx ⊢; right; exact hx)
+              lowup := by intro h'; cases h'
+              upper := by
+                intro a b hab; cases hab
+                rw [hl0]
+                refine ⟨rfl, hlc, ?_, by show q.last = _; exact hlast⟩
+                show mEnd 0 (l0 :: lrest) ≤ q.size
+                have := hb.1; omega
+              lastU := by intro _ _; exact hlast
+              lower := by intro a b h'; cases h' }
+
+end Iec.Queues
+
+namespace Iec.Queues
+
+/-- `MessageQueue_markAsduAsConfirmed` for a reference (offset, id) that designates a queued entry inside the id
+window: the entry becomes confirmed; if it is the oldest entry it leaves the queue; nothing else changes -/
+theorem markConfirmed_refines (q : MsgQueue) (up low : List MEntry) (h : MqInv q up low) (x : MEntry)
+    (hx : x ∈ up ++ low) (hwin : x.2.id + 1 ≤ q.nextId ∧ q.nextId - 1 - x.2.id < q.count) :
+    ∃ up' low', MqInv (q.markConfirmed x.1 x.2.id) up' low' ∧
+      MqInv.abs up' low' =
+        (if (up ++ low).head? = some x then (MqInv.abs (up.map (updSt x.1 0)) (low.map (updSt x.1 0))).tail
+         else MqInv.abs (up.map (updSt x.1 0)) (low.map (updSt x.1 0))) := by
+  have hcnt : q.count > 0 := by omega
+  have hgx := h.data x hx
+  have hs := setState_inv q up low h x.1 0
+  have hwin' : (decide (x.2.id + 1 ≤ q.nextId) && decide (q.nextId - 1 - x.2.id < q.count)) = true := by simp [hwin.1, hwin.2]
+  cases up with
+  | nil => have := h.lowup rfl; subst this; simp at hx
+  | cons u0 rest =>
+    obtain ⟨hfirst, hchain, _, _⟩ := h.upper u0 rest rfl
+    have hbU := mChain_bounds u0.1 (u0 :: rest) hchain
+    by_cases hhead : x = u0
+    · subst hhead
+      have heq : q.markConfirmed x.1 x.2.id = (q.setState x.1 0).removeFirst := by
+        simp [MsgQueue.markConfirmed, hcnt, hwin', hgx, hfirst]
+      rw [heq]
+      have hs' : MqInv (q.setState x.1 0) (updSt x.1 0 x :: rest.map (updSt x.1 0)) (low.map (updSt x.1 0)) := by simpa using hs
+      obtain ⟨hne, hnil⟩ := removeFirst_refines _ _ _ _ hs'
+      have hh : ((x :: rest) ++ low).head? = some x := by simp
+      rw [if_pos hh]
+      by_cases hr : rest = []
+      · subst hr
+        exact ⟨_, _, hnil (by simp), by simp [MqInv.abs]⟩
+      · exact ⟨_, _, hne (by simpa using hr), by simp [MqInv.abs]⟩
+    · -- not the oldest entry: its offset differs from `first`
+      have hoff : ¬ (some x.1 = q.first) := by
+        rw [hfirst]; simp
+        intro hxo
+        rcases List.mem_append.mp hx with hxu | hxl
+        · rcases List.mem_cons.mp hxu with rfl | hxr
+          · exact hhead rfl
+          · have hc2 := hchain.2
+            have := ((mChain_bounds _ _ hc2).2 x hxr).1
+            simp only [esz, HDR] at this; omega
+        · cases low with
+          | nil => simp at hxl
+          | cons l0 lrest =>
+            obtain ⟨hlc, _, hle⟩ := h.lower l0 lrest rfl
+            have := ((mChain_bounds 0 _ hlc).2 x hxl).2
+            have h2 := hle u0 rest rfl
+            simp only [esz, HDR] at this; omega
+      have heq : q.markConfirmed x.1 x.2.id = q.setState x.1 0 := by
+        simp [MsgQueue.markConfirmed, hcnt, hwin', hgx, hoff]
+      rw [heq]
+      have hh : ¬ (((u0 :: rest) ++ low).head? = some x) := by simp; exact fun h' => hhead h'.symm
+      rw [if_neg hh]
+      exact ⟨_, _, hs, rfl⟩
+
+end Iec.Queues
+
+namespace Iec.Queues
+
+/-! ### re-arming the sent-but-unconfirmed entries (connection lost) -/
+
+/-- same pointers and counters -/
+def SameShape (q q' : MsgQueue) : Prop :=
+  q'.size = q.size ∧ q'.count = q.count ∧ q'.first = q.first ∧ q'.last = q.last ∧ q'.lib = q.lib ∧ q'.nextId = q.nextId
+
+theorem SameShape.refl (q : MsgQueue) : SameShape q q := ⟨rfl, rfl, rfl, rfl, rfl, rfl⟩
+theorem SameShape.setState (q : MsgQueue) (o st : Nat) : SameShape q (q.setState o st) := ⟨rfl, rfl, rfl, rfl, rfl, rfl⟩
+theorem SameShape.trans {a b c : MsgQueue} (h1 : SameShape a b) (h2 : SameShape b c) : SameShape a c := by
+  obtain ⟨a1, a2, a3, a4, a5, a6⟩ := h1
+  obtain ⟨b1, b2, b3, b4, b5, b6⟩ := h2
+  exact ⟨b1.trans a1, b2.trans a2, b3.trans a3, b4.trans a4, b5.trans a5, b6.trans a6⟩
+
+def rearmE (e : QEntry) : QEntry := if e.st = 2 then { e with st := 1 } else e
+def rearm (x : MEntry) : MEntry := (x.1, rearmE x.2)
+
+theorem rearm_fst (x : MEntry) : (rearm x).1 = x.1 := rfl
+theorem rearm_esz (x : MEntry) : esz (rearm x) = esz x := by unfold rearm rearmE esz; split <;> rfl
+
+/-- an invariant-preserving relabelling: same shape, entries replaced by `r x` with the same offset and size -/
+theorem inv_of_get (q q' : MsgQueue) (up low : List MEntry) (h : MqInv q up low) (hs : SameShape q q') (r : MEntry → MEntry)
+    (hr1 : ∀ x, (r x).1 = x.1) (hr2 : ∀ x, esz (r x) = esz x) (hg : ∀ x ∈ up ++ low, q'.get x.1 = some (r x).2) :
+    MqInv q' (up.map r) (low.map r) := by
+  obtain ⟨s1, s2, s3, s4, s5, _⟩ := hs
+  have hchain : ∀ (xs : List MEntry) (o : Nat), MChain o xs → MChain o (xs.map r) := by
+    intro xs
+    induction xs with
+    | nil => intro o _; trivial
+    | cons x xs ih => intro o hc; exact ⟨by rw [hr1]; exact hc.1, by rw [hr2]; exact ih _ hc.2⟩
+  have hend : ∀ (xs : List MEntry) (o : Nat), mEnd o (xs.map r) = mEnd o xs := by
+    intro xs
+    induction xs with
+    | nil => intro o; rfl
+    | cons x xs ih => intro o; simp [mEnd, hr2, ih]
+  have hlast : ∀ (xs : List MEntry), mLast (xs.map r) = mLast xs := by
+    intro xs; unfold mLast; rw [List.getLast?_map]; cases xs.getLast? <;> simp [hr1]
+  exact { count := by rw [s2]; have := h.count; simpa using this
+          data := by
+            intro x hx
+            rw [← List.map_append] at hx
+            obtain ⟨y, hy, rfl⟩ := List.mem_map.mp hx
+            rw [hr1]; exact hg y hy
+          lowup := by intro h'; have := h.lowup (by simpa using h'); simp [this]
+          upper := by
+            intro a b hab
+            cases up with
+            | nil => simp at hab
+            | cons u0 rest =>
+              obtain ⟨hf, hc, he, hl⟩ := h.upper u0 rest rfl
+              simp only [List.map_cons, List.cons.injEq] at hab
+              obtain ⟨ha, _⟩ := hab
+              subst ha
+              refine ⟨by rw [s3, hr1]; exact hf, by rw [hr1]; exact hchain _ _ hc, by rw [hr1, hend, s1]; exact he, by rw [hlast, s5]; exact hl⟩
+          lastU := by
+            intro hne hl
+            have hl' : low = [] := by simpa using hl
+            have hne' : up ≠ [] := by intro hh; exact hne (by simp [hh])
+            rw [hlast, s4]; exact h.lastU hne' hl'
+          lower := by
+            intro a b hab
+            cases low with
+            | nil => simp at hab
+            | cons l0 lrest =>
+              obtain ⟨hc, hl, hle⟩ := h.lower l0 lrest rfl
+              refine ⟨hchain _ _ hc, by rw [hlast, s4]; exact hl, ?_⟩
+              intro a' b' hab'
+              cases up with
+              | nil => simp at hab'
+              | cons u0 rest =>
+                simp only [List.map_cons, List.cons.injEq] at hab'
+                rw [← hab'.1, hr1, hend]
+                exact hle u0 rest rfl }
+
+/-- effect of the reset loop on a chain segment that ends at `last` -/
+theorem reset_final : ∀ (xs : List MEntry) (q : MsgQueue) (o : Nat) (z : MEntry),
+    MChain o (xs ++ [z]) → (∀ x ∈ xs ++ [z], q.get x.1 = some x.2) → q.last = some z.1 →
+    (∀ x ∈ xs, some x.1 ≠ q.lib) →
+    ∀ k, SameShape q (resetLoop q (xs.length + 1 + k) o) ∧
+      (∀ x ∈ xs ++ [z], (resetLoop q (xs.length + 1 + k) o).get x.1 = some (rearmE x.2)) ∧
+      (∀ o', (∀ x ∈ xs ++ [z], x.1 ≠ o') → (resetLoop q (xs.length + 1 + k) o).get o' = q.get o') := by
+  intro xs
+  induction xs with
+  | nil =>
+    intro q o z hc hg hl _ k
+    obtain ⟨hz, _⟩ := hc
+    have hgz := hg z (by simp)
+    subst hz
+    have : ([] : List MEntry).length + 1 + k = k + 1 := by simp; omega
+    rw [this]
+    simp only [resetLoop, hgz, hl, beq_self_eq_true, if_true, List.nil_append, List.mem_singleton, forall_eq]
+    by_cases hst : z.2.st = 2
+    · simp only [hst, beq_self_eq_true, if_true]
+      refine ⟨SameShape.setState q z.1 1, ?_, ?_⟩
+      · rw [get_setState, hgz]; simp [rearmE, hst]
+      · intro o' ho'; rw [get_setState]
+        have : ¬ (o' = z.1) := fun h => ho' h.symm
+        cases q.get o' <;> simp [this]
+    · have hst' : (z.2.st == 2) = false := by simpa using hst
+      simp only [hst', Bool.false_eq_true, if_false]
+      refine ⟨SameShape.refl q, ?_, fun _ _ => trivial⟩
+      rw [hgz]; simp [rearmE, hst]
+  | cons x xs ih =>
+    intro q o z hc hg hl hlib k
+    obtain ⟨hx, hrest⟩ := hc
+    have hgx := hg x (by simp)
+    have hb := mChain_bounds _ _ hrest
+    have hzpos : x.1 < z.1 := by
+      have := (hb.2 z (by simp)).1
+      simp only [esz, HDR] at this; omega
+    have hnl : ¬ (some x.1 = q.last) := by rw [hl]; simp; omega
+    have hnlib : ¬ (some x.1 = q.lib) := hlib x (by simp)
+    subst hx
+    have hnext : q.next x.1 = x.1 + esz x := by
+      simp [MsgQueue.next, hnlib, esize_of q x hgx, esz, Nat.add_assoc]
+    have hlen : (x :: xs).length + 1 + k = (xs.length + 1 + k) + 1 := by simp; omega
+    rw [hlen]
+    simp only [resetLoop, hgx, beq_iff_eq, hnl, if_false, hnext]
+    -- the queue after treating `x`
+    have hq1 : ∃ q1, q1 = (if x.2.st = 2 then q.setState x.1 1 else q) ∧ SameShape q q1 ∧
+        q1.get x.1 = some (rearmE x.2) ∧ ∀ o', x.1 ≠ o' → q1.get o' = q.get o' := by
+      by_cases hst : x.2.st = 2
+      · refine ⟨q.setState x.1 1, by simp [hst], SameShape.setState q x.1 1, ?_, ?_⟩
+        · rw [get_setState, hgx]; simp [rearmE, hst]
+        · intro o' ho'; rw [get_setState]
+          have : ¬ (o' = x.1) := fun h => ho' h.symm
+          cases q.get o' <;> simp [this]
+      · refine ⟨q, by simp [hst], SameShape.refl q, by rw [hgx]; simp [rearmE, hst], fun _ _ => rfl⟩
+    obtain ⟨q1, hq1e, hs1, hg1, hgo1⟩ := hq1
+    rw [← hq1e]
+    have hrest_off : ∀ y ∈ xs ++ [z], x.1 ≠ y.1 := by
+      intro y hy; have := (hb.2 y hy).1; simp only [esz, HDR] at this; omega
+    obtain ⟨_, _, _, s4, s5, _⟩ := hs1
+    have hih := ih q1 (x.1 + esz x) z hrest
+      (fun y hy => by rw [hgo1 y.1 (hrest_off y hy)]; exact hg y (by simp at hy ⊢; rcases hy with hy | hy; exact Or.inr (Or.inl hy); exact Or.inr (Or.inr hy)))
+      (by rw [s4]; exact hl) (fun y hy => by rw [s5]; exact hlib y (by simp [hy])) k
+    obtain ⟨hsh, hgl, hgo⟩ := hih
+    refine ⟨SameShape.trans ⟨by assumption, by assumption, by assumption, s4, s5, by assumption⟩ hsh, ?_, ?_⟩
+    · intro y hy
+      simp only [List.cons_append, List.mem_cons] at hy
+      rcases hy with rfl | hy
+      · rw [hgo y.1 (fun w hw => (hrest_off w hw).symm)]; exact hg1
+      · exact hgl y hy
+    · intro o' ho'
+      rw [hgo o' (fun w hw => ho' w (by simp at hw ⊢; rcases hw with hw | hw; exact Or.inr (Or.inl hw); exact Or.inr (Or.inr hw)))]
+      exact hgo1 o' (ho' x (by simp))
+
+end Iec.Queues
+
+namespace Iec.Queues
+
+/-- effect of the reset loop on the upper part of a wrapped ring: it continues at the buffer start -/
+theorem reset_seg : ∀ (xs : List MEntry) (q : MsgQueue) (o : Nat) (z : MEntry),
+    MChain o (xs ++ [z]) → (∀ x ∈ xs ++ [z], q.get x.1 = some x.2) → (∀ x ∈ xs ++ [z], some x.1 ≠ q.last) →
+    q.lib = some z.1 →
+    ∀ k, ∃ q', resetLoop q (xs.length + 1 + k) o = resetLoop q' k 0 ∧ SameShape q q' ∧
+      (∀ x ∈ xs ++ [z], q'.get x.1 = some (rearmE x.2)) ∧
+      (∀ o', (∀ x ∈ xs ++ [z], x.1 ≠ o') → q'.get o' = q.get o') := by
+  intro xs
+  induction xs with
+  | nil =>
+    intro q o z hc hg hl hlib k
+    obtain ⟨hz, _⟩ := hc
+    have hgz := hg z (by simp)
+    have hnl : ¬ (some z.1 = q.last) := hl z (by simp)
+    subst hz
+    have hnext : q.next z.1 = 0 := by simp [MsgQueue.next, hlib]
+    have : ([] : List MEntry).length + 1 + k = k + 1 := by simp; omega
+    rw [this]
+    simp only [resetLoop, hgz, beq_iff_eq, hnl, if_false, hnext, List.nil_append, List.mem_singleton, forall_eq]
+    by_cases hst : z.2.st = 2
+    · refine ⟨q.setState z.1 1, by simp [hst], SameShape.setState q z.1 1, ?_, ?_⟩
+      · rw [get_setState, hgz]; simp [rearmE, hst]
+      · intro o' ho'; rw [get_setState]
+        have : ¬ (o' = z.1) := fun h => ho' h.symm
+        cases q.get o' <;> simp [this]
+    · refine ⟨q, by simp [hst], SameShape.refl q, ?_, fun _ _ => rfl⟩
+      rw [hgz]; simp [rearmE, hst]
+  | cons x xs ih =>
+    intro q o z hc hg hl hlib k
+    obtain ⟨hx, hrest⟩ := hc
+    have hgx := hg x (by simp)
+    have hb := mChain_bounds _ _ hrest
+    have hzpos : x.1 < z.1 := by
+      have := (hb.2 z (by simp)).1
+      simp only [esz, HDR] at this; omega
+    have hnl : ¬ (some x.1 = q.last) := hl x (by simp)
+    have hnlib : ¬ (some x.1 = q.lib) := by rw [hlib]; simp; omega
+    subst hx
+    have hnext : q.next x.1 = x.1 + esz x := by
+      simp [MsgQueue.next, hnlib, esize_of q x hgx, esz, Nat.add_assoc]
+    have hlen : (x :: xs).length + 1 + k = (xs.length + 1 + k) + 1 := by simp; omega
+    rw [hlen]
+    simp only [resetLoop, hgx, beq_iff_eq, hnl, if_false, hnext]
+    have hq1 : ∃ q1, q1 = (if x.2.st = 2 then q.setState x.1 1 else q) ∧ SameShape q q1 ∧
+        q1.get x.1 = some (rearmE x.2) ∧ ∀ o', x.1 ≠ o' → q1.get o' = q.get o' := by
+      by_cases hst : x.2.st = 2
+      · refine ⟨q.setState x.1 1, by simp [hst], SameShape.setState q x.1 1, ?_, ?_⟩
+        · rw [get_setState, hgx]; simp [rearmE, hst]
+        · intro o' ho'; rw [get_setState]
+          have : ¬ (o' = x.1) := fun h => ho' h.symm
+          cases q.get o' <;> simp [this]
+      · refine ⟨q, by simp [hst], SameShape.refl q, by rw [hgx]; simp [rearmE, hst], fun _ _ => rfl⟩
+    obtain ⟨q1, hq1e, hs1, hg1, hgo1⟩ := hq1
+    rw [← hq1e]
+    have hrest_off : ∀ y ∈ xs ++ [z], x.1 ≠ y.1 := by
+      intro y hy; have := (hb.2 y hy).1; simp only [esz, HDR] at this; omega
+    obtain ⟨t1, t2, t3, s4, s5, t6⟩ := hs1
+    obtain ⟨q', hres, hsh, hgl, hgo⟩ := ih q1 (x.1 + esz x) z hrest
+      (fun y hy => by rw [hgo1 y.1 (hrest_off y hy)]; exact hg y (by simp at hy ⊢; rcases hy with hy | hy; exact Or.inr (Or.inl hy); exact Or.inr (Or.inr hy)))
+      (fun y hy => by rw [s4]; exact hl y (by simp at hy ⊢; rcases hy with hy | hy; exact Or.inr (Or.inl hy); exact Or.inr (Or.inr hy)))
+      (by rw [s5]; exact hlib) k
+    refine ⟨q', hres, SameShape.trans ⟨t1, t2, t3, s4, s5, t6⟩ hsh, ?_, ?_⟩
+    · intro y hy
+      simp only [List.cons_append, List.mem_cons] at hy
+      rcases hy with rfl | hy
+      · rw [hgo y.1 (fun w hw => (hrest_off w hw).symm)]; exact hg1
+      · exact hgl y hy
+    · intro o' ho'
+      rw [hgo o' (fun w hw => ho' w (by simp at hw ⊢; rcases hw with hw | hw; exact Or.inr (Or.inl hw); exact Or.inr (Or.inr hw)))]
+      exact hgo1 o' (ho' x (by simp))
+
+/-- **setWaitingForTransmissionWhenNotConfirmed** terminates and turns exactly the sent-but-unconfirmed entries
+back into waiting ones; ids, octets, order and all other states are untouched -/
+theorem setWaiting_refines (q : MsgQueue) (up low : List MEntry) (h : MqInv q up low) :
+    MqInv q.setWaitingWhenNotConfirmed (up.map rearm) (low.map rearm) := by
+  unfold MsgQueue.setWaitingWhenNotConfirmed
+  cases up with
+  | nil =>
+    have := h.lowup rfl; subst this
+    have hc : q.count = 0 := by simpa using h.count
+    simpa [hc] using h
+  | cons u0 rest =>
+    obtain ⟨hfirst, hchain, hend, hlib⟩ := h.upper u0 rest rfl
+    have hc : ¬ (q.count = 0) := by have := h.count; simp at this; omega
+    simp only [hc, if_false, hfirst, Option.getD_some]
+    obtain ⟨L, z, hL⟩ := msnoc_cases (u0 :: rest) (by simp)
+    have hchain' : MChain u0.1 (L ++ [z]) := hL ▸ hchain
+    have hzlast : mLast (u0 :: rest) = z.1 := by rw [hL]; exact mLast_snoc L z
+    have hbU := mChain_bounds u0.1 (u0 :: rest) hchain
+    cases low with
+    | nil =>
+      have hlast := h.lastU (by simp) rfl
+      rw [hzlast] at hlast hlib
+      have hcount : q.count + 1 = L.length + 1 + 1 := by have := h.count; rw [hL] at this; simp at this ⊢; omega
+      rw [hcount]
+      obtain ⟨hsh, hgl, _⟩ := reset_final L q u0.1 z hchain' (fun x hx => h.data x (List.mem_append.mpr (Or.inl (by rw [hL]; exact hx)))) hlast
+        (by
+          intro x hx
+          rw [hlib]
+          have hb := mChain_bounds _ _ ((mChain_append u0.1 L [z]).mp hchain').1
+          have h1 := (hb.2 x hx).2
+          have h2 := (mChain_last u0.1 L z hchain').2.2
+          simp only [esz, HDR] at h1
+          simp; omega) 1
+      exact inv_of_get q _ (u0 :: rest) [] h hsh rearm rearm_fst rearm_esz
+        (fun x hx => hgl x (by rw [← hL]; simpa using hx))
+    | cons l0 lrest =>
+      obtain ⟨hlc, hlast, hle⟩ := h.lower l0 lrest rfl
+      have hleU := hle u0 rest rfl
+      obtain ⟨LL, zz, hLL⟩ := msnoc_cases (l0 :: lrest) (by simp)
+      have hlc' : MChain 0 (LL ++ [zz]) := hLL ▸ hlc
+      have hzzlast : mLast (l0 :: lrest) = zz.1 := by rw [hLL]; exact mLast_snoc LL zz
+      rw [hzlast] at hlib
+      rw [hzzlast] at hlast
+      have hcount : q.count + 1 = L.length + 1 + (LL.length + 1 + 1) := by
+        have := h.count; rw [hL, hLL] at this; simp at this ⊢; omega
+      have hbL := mChain_bounds 0 (l0 :: lrest) hlc
+      have hzzlt : zz.1 < u0.1 := by
+        have := (hbL.2 zz (by rw [hLL]; simp)).2
+        simp only [esz, HDR] at this; omega
+      rw [hcount]
+      obtain ⟨q', hres, hsh1, hgl1, hgo1⟩ := reset_seg L q u0.1 z hchain'
+        (fun x hx => h.data x (List.mem_append.mpr (Or.inl (by rw [hL]; exact hx))))
+        (by
+          intro x hx
+          rw [hlast]
+          have := (hbU.2 x (by rw [hL]; exact hx)).1
+          simp; omega) hlib (LL.length + 1 + 1)
+      rw [hres]
+      obtain ⟨_, _, _, s4, s5, _⟩ := hsh1
+      have hdisj : ∀ y ∈ LL ++ [zz], ∀ x ∈ L ++ [z], x.1 ≠ y.1 := by
+        intro y hy x hx
+        have h1 := (hbL.2 y (by rw [hLL]; exact hy)).2
+        have h2 := (hbU.2 x (by rw [hL]; exact hx)).1
+        simp only [esz, HDR] at h1; omega
+      obtain ⟨hsh2, hgl2, hgo2⟩ := reset_final LL q' 0 zz hlc'
+        (fun y hy => by rw [hgo1 y.1 (hdisj y hy)]; exact h.data y (List.mem_append.mpr (Or.inr (by rw [hLL]; exact hy))))
+        (by rw [s4]; exact hlast)
+        (by
+          intro x hx
+          rw [s5, hlib]
+          have h1 := (hbL.2 x (by rw [hLL]; simp [hx])).2
+          have h2 := (hbU.2 z (by rw [hL]; simp)).1
+          simp only [esz, HDR] at h1
+          simp; omega) 1
+      refine inv_of_get q _ (u0 :: rest) (l0 :: lrest) h (SameShape.trans ⟨by assumption, by assumption, by assumption, s4, s5, by assumption⟩ hsh2)
+        rearm rearm_fst rearm_esz ?_
+      intro x hx
+      rcases List.mem_append.mp hx with hx | hx
+      · rw [hgo2 x.1 (fun y hy => (hdisj y hy x (by rw [← hL]; exact hx)).symm)]
+        exact hgl1 x (by rw [← hL]; exact hx)
+      · exact hgl2 x (by rw [← hLL]; exact hx)
+
+end Iec.Queues
